@@ -151,24 +151,111 @@ theorem C28_pinned_queued_refuted :
     overflows and stays negative, so `timeDiff > window` was false. -/
 theorem C28_pinned_farfuture_refuted :
     (deliverPinned idealV wCfg wAwake wNow .floodSleep 1
-      { origin := 4, id := 10, ts := 20000000000, sig := .signed 0 4 10 20000000000, seenBy := [] }).1.sl = .sleeping ∧
+      { origin := 4, id := 10, ts := 20000000000, sig := .signed 0 .sleep 4 10 20000000000, seenBy := [] }).1.sl = .sleeping ∧
     (deliver idealV wCfg wAwake wNow .floodSleep 1
-      { origin := 4, id := 10, ts := 20000000000, sig := .signed 0 4 10 20000000000, seenBy := [] }).1.sl = .awake := by
+      { origin := 4, id := 10, ts := 20000000000, sig := .signed 0 .sleep 4 10 20000000000, seenBy := [] }).1.sl = .awake := by
   decide
 
 /-- Before the fix the stored wake command was forwarded even after its timestamp left the window. -/
 theorem C28_pinned_pending_refuted :
-    let st : FState := { seen := [], pending := some ({ origin := 4, id := 11, ts := 1800000000 - 299, sig := .signed 0 4 11 (1800000000 - 299), seenBy := [] }, wNow - 100000000000) }
+    let st : FState := { seen := [], pending := some ({ origin := 4, id := 11, ts := 1800000000 - 299, sig := .signed 0 .wake 4 11 (1800000000 - 299), seenBy := [] }, wNow - 100000000000) }
     (onPeerConnectedPinned wCfg st wNow 2).2 ≠ [] ∧ (onPeerConnected idealV wCfg st (wNow + 100000000000) 2).2 = [] ∧
     (onPeerConnectedPinned wCfg st (wNow + 100000000000) 2).2 ≠ [] := by
   decide
 
+/-! ### the verified bytes do not bind the command kind (open finding C28-cross-type-replay) -/
+
+theorem idealV_signed {o i t : Nat} {s : Sig} (h : idealV o i t s = true) : ∃ k, s = .signed 0 k o i t := by
+  unfold idealV at h
+  split at h
+  · rename_i k o' i' t'
+    simp only [Bool.and_eq_true, beq_iff_eq] at h
+    obtain ⟨⟨h1, h2⟩, h3⟩ := h
+    exact ⟨k, by rw [h1, h2, h3]⟩
+  · cases h
+
+/-- The property read with "valid signature" = "the key holder signed THIS command": whenever a
+    delivery by `via` has any effect, the signature is one the key holder made when issuing a
+    command of that kind with these fields.  (Ideal signatures, the code's verifier `idealV`.) -/
+def C28_statement_kind : Prop :=
+  ∀ (cfg : FCfg) (a : AState) (now : Int) (via : Via) (from_ : Nat) (c : Cmd),
+    cfg.signing = true → cfg.window < 2^63 - 1 →
+    ((deliver idealV cfg a now via from_ c).1.sl ≠ a.sl ∨ (deliver idealV cfg a now via from_ c).2.sends ≠ []) →
+    c.sig = .signed 0 via.kind c.origin c.id c.ts
+
+/-- REFUTED on the code: `SleepCommand.SignableBytes` and `WakeCommand.SignableBytes` are the same
+    bytes (origin ‖ id ‖ timestamp, no command type), so the signature of a SLEEP command the key
+    holder issued verifies on a WAKE command with the same fields: a sleeping agent that did not see
+    the original is woken (and forwards the forged wake). -/
+theorem C28_refuted_cross_type : ¬ C28_statement_kind := by
+  intro h
+  have := h wCfg { f := FState.empty, sl := .sleeping } wNow .floodWake 1
+    { origin := 4, id := 10, ts := 1800000000, sig := .signed 0 .sleep 4 10 1800000000, seenBy := [] }
+    (by decide) (by decide) (by decide)
+  revert this
+  decide
+
+/-- What does hold (the strongest true restriction): an effect implies a signature the key holder
+    made over exactly this origin, id and timestamp for SOME kind of command, and a timestamp inside
+    the window — the kind is the only thing not bound. -/
+theorem C28_partial (cfg : FCfg) (a : AState) (now : Int) (via : Via) (from_ : Nat) (c : Cmd)
+    (hk : cfg.signing = true) (hw : cfg.window < 2^63 - 1)
+    (hact : (deliver idealV cfg a now via from_ c).1.sl ≠ a.sl ∨ (deliver idealV cfg a now via from_ c).2.sends ≠ []) :
+    (∃ k, c.sig = .signed 0 k c.origin c.id c.ts) ∧
+    -cfg.window ≤ now - cmdSec c.ts * 1000000000 ∧ now - cmdSec c.ts * 1000000000 ≤ cfg.window := by
+  have hadm := (C28_every_path idealV cfg a now via from_ c hk hw (by
+    rcases hact with h | h
+    · exact Or.inl h
+    · exact Or.inr (Or.inr (Or.inr (Or.inr (Or.inr h)))))).1
+  exact ⟨idealV_signed hadm.2.1, hadm.2.2⟩
+
+/-- With signed bytes that bind the kind (`idealKV`), the kind is bound: the cross-type replay is a
+    consequence of the signed layout only. -/
+theorem C28_kind_bound_if_signed_bytes_bind_kind (cfg : FCfg) (a : AState) (now : Int) (via : Via) (from_ : Nat) (c : Cmd)
+    (hk : cfg.signing = true) (hw : cfg.window < 2^63 - 1)
+    (hact : (deliver (idealKV via.kind) cfg a now via from_ c).1.sl ≠ a.sl ∨
+            (deliver (idealKV via.kind) cfg a now via from_ c).2.sends ≠ []) :
+    c.sig = .signed 0 via.kind c.origin c.id c.ts := by
+  have hadm := (C28_every_path (idealKV via.kind) cfg a now via from_ c hk hw (by
+    rcases hact with h | h
+    · exact Or.inl h
+    · exact Or.inr (Or.inr (Or.inr (Or.inr (Or.inr h)))))).1
+  have := hadm.2.1
+  unfold idealKV at this
+  exact beq_iff_eq.mp this
+
+/-! ### issuer side -/
+
+/-- What `TriggerSleep` / `TriggerWake` puts on the wire: every frame carries this agent as origin,
+    `SeenBy = [this agent]`, the current Unix second as timestamp, and — when a private key is
+    configured — a signature the key holder made for exactly this kind, origin, id and timestamp. -/
+theorem C28_issued (canSign : Bool) (cfg : FCfg) (a : AState) (now : Int) (k : Kind) (id : Nat) :
+    ∀ x ∈ (trigger canSign cfg a now k id).2.sends,
+      x.2.1 = k ∧ x.2.2.origin = cfg.localID ∧ x.2.2.id = id ∧ x.2.2.ts = (now / 1000000000).toNat ∧
+      x.2.2.seenBy = [cfg.localID] ∧
+      (canSign = true → x.2.2.sig = .signed 0 k cfg.localID id (now / 1000000000).toNat) ∧
+      (canSign = false → x.2.2.sig = .zero) := by
+  intro x hx
+  unfold trigger floodLocal issued at hx
+  cases k with
+  | sleep =>
+    simp only [List.map_map, List.mem_map] at hx
+    obtain ⟨p, _, rfl⟩ := hx
+    cases canSign <;> simp
+  | wake =>
+    dsimp only at hx
+    split at hx
+    · simp [Outcome.none] at hx
+    · simp only [List.map_map, List.mem_map] at hx
+      obtain ⟨p, _, rfl⟩ := hx
+      cases canSign <;> simp
+
 /-! ### the hypotheses are satisfiable and the positive case exists -/
 
 example : (deliver idealV wCfg wAwake wNow .queuedSleep 1
-    { origin := 4, id := 10, ts := 1800000000, sig := .signed 0 4 10 1800000000, seenBy := [] }).1.sl = .sleeping := by decide
+    { origin := 4, id := 10, ts := 1800000000, sig := .signed 0 .sleep 4 10 1800000000, seenBy := [] }).1.sl = .sleeping := by decide
 example : (deliver idealV wCfg wAwake wNow .floodSleep 1
-    { origin := 4, id := 10, ts := 1800000000, sig := .signed 0 4 10 1800000000, seenBy := [2] }).2.sends.length = 1 := by decide
+    { origin := 4, id := 10, ts := 1800000000, sig := .signed 0 .sleep 4 10 1800000000, seenBy := [2] }).2.sends.length = 1 := by decide
 example : wCfg.signing = true ∧ wCfg.window < 2^63 - 1 := by decide
 
 end MM.C28
